@@ -17,6 +17,7 @@ from __future__ import annotations
 import errno
 import io
 import os
+import re
 import selectors
 import socket
 import socketserver
@@ -93,6 +94,9 @@ if t.TYPE_CHECKING:
     from cryptography.x509 import Certificate
 
 
+_chunk_size_re = re.compile(r"[0-9A-Fa-f]+", re.ASCII)
+
+
 class DechunkedInput(io.RawIOBase):
     """An input stream that handles Transfer-Encoding 'chunked'"""
 
@@ -106,8 +110,11 @@ class DechunkedInput(io.RawIOBase):
 
     def read_chunk_len(self) -> int:
         try:
-            line = self._rfile.readline().decode("latin1")
-            _len = int(line.strip(), 16)
+            line = self._rfile.readline().decode("latin1").strip()
+            if _chunk_size_re.fullmatch(line) is None:
+                # int() would also accept a sign, a "0x" prefix and "_".
+                raise ValueError(line)
+            _len = int(line, 16)
         except ValueError as e:
             raise OSError("Invalid chunk header") from e
         if _len < 0:
